@@ -498,7 +498,7 @@ pub fn oracle(tier: &str, seed: u64) -> (u64, Vec<Finding>) {
         tried += 4;
         let up = (0..nr).all(|i| (0..nc).all(|j| j >= i || e(i, j) == 0.0));
         let lo = (0..nr).all(|i| (0..nc).all(|j| j <= i || e(i, j) == 0.0));
-        let sym = nr == nc && (0..nr).all(|i| (0..nc).all(|j| (e(i, j) - e(j, i)).abs() <= f64::EPSILON));
+        let sym = nr == nc && (0..nr).all(|i| (0..nc).all(|j| (e(i, j) - e(j, i)).abs() <= f64::EPSILON * e(i, j).abs().max(e(j, i).abs()))); // the documented (relative) tolerance
         for (name, want, got) in [("is_upper_triangular", up, catch(|| m.is_upper_triangular())), ("is_lower_triangular", lo, catch(|| m.is_lower_triangular())),
                                   ("is_symmetric", sym, catch(|| m.is_symmetric())), ("is_square", nr == nc, catch(|| m.is_square()))] {
             match got { Ok(g) => if g != want { push(&mut out, &format!("{}:wrong", name), format!("returned {}, definition gives {}", g, want), inp.clone()); }
